@@ -35,13 +35,17 @@ impl<R: Round, const B: Word> FBig<R, B> {
 
         if self.repr.exponent >= 0 {
             return self.clone();
-        } else if self.repr.smaller_than_one() {
-            return Self::ZERO;
         }
 
+        // `smaller_than_one` is only an estimate: whether it fires must not be observable,
+        // so the shortcut returns exactly what the general path would (same value, same context)
         let shift = (-self.repr.exponent) as usize;
-        let signif = shr_digits::<B>(&self.repr.significand, shift);
         let context = Context::new(self.context.precision.saturating_sub(shift));
+        if self.repr.smaller_than_one() {
+            return FBig::new(Repr::zero(), context);
+        }
+
+        let signif = shr_digits::<B>(&self.repr.significand, shift);
         FBig::new(Repr::new(signif, 0), context)
     }
 
@@ -89,14 +93,17 @@ impl<R: Round, const B: Word> FBig<R, B> {
         // trivial case when the exponent is positive
         if self.repr.exponent >= 0 {
             return (self, Self::ZERO);
-        } else if self.repr.smaller_than_one() {
-            return (Self::ZERO, self);
         }
 
+        // the contexts do not depend on whether the `smaller_than_one` estimate fires
         let shift = (-self.repr.exponent) as usize;
-        let (hi, lo) = split_digits::<B>(self.repr.significand, shift);
         let hi_ctxt = Context::new(self.context.precision.saturating_sub(shift));
         let lo_ctxt = Context::new(shift);
+        if self.repr.smaller_than_one() {
+            return (FBig::new(Repr::zero(), hi_ctxt), FBig::new(self.repr, lo_ctxt));
+        }
+
+        let (hi, lo) = split_digits::<B>(self.repr.significand, shift);
         (
             FBig::new(Repr::new(hi, 0), hi_ctxt),
             FBig::new(Repr::new(lo, self.repr.exponent), lo_ctxt),
@@ -129,7 +136,9 @@ impl<R: Round, const B: Word> FBig<R, B> {
         if self.repr.exponent >= 0 {
             return Self::ZERO;
         } else if self.repr.smaller_than_one() {
-            return self.clone();
+            // same context as the general path: the number of fractional digits
+            let context = Context::new((-self.repr.exponent) as usize);
+            return FBig::new(self.repr.clone(), context);
         }
 
         let (_, lo, precision) = self.split_at_point_internal();
@@ -165,9 +174,12 @@ impl<R: Round, const B: Word> FBig<R, B> {
         if self.repr.is_zero() || self.repr.exponent >= 0 {
             return self.clone();
         } else if self.repr.smaller_than_one() {
+            // same context as the general path (see `round` for the rule)
+            let shift = (-self.repr.exponent) as usize;
+            let context = Context::new(self.context.precision.saturating_sub(shift));
             return match self.repr.sign() {
-                Sign::Positive => Self::ONE,
-                Sign::Negative => Self::ZERO,
+                Sign::Positive => FBig::new(Repr::one(), context),
+                Sign::Negative => FBig::new(Repr::zero(), context),
             };
         }
 
@@ -205,9 +217,12 @@ impl<R: Round, const B: Word> FBig<R, B> {
         if self.repr.exponent >= 0 {
             return self.clone();
         } else if self.repr.smaller_than_one() {
+            // same context as the general path (see `round` for the rule)
+            let shift = (-self.repr.exponent) as usize;
+            let context = Context::new(self.context.precision.saturating_sub(shift));
             return match self.repr.sign() {
-                Sign::Positive => Self::ZERO,
-                Sign::Negative => Self::NEG_ONE,
+                Sign::Positive => FBig::new(Repr::zero(), context),
+                Sign::Negative => FBig::new(Repr::neg_one(), context),
             };
         }
 
@@ -255,7 +270,10 @@ impl<R: Round, const B: Word> FBig<R, B> {
         } else if self.repr.exponent + (self.repr.digits_ub() as isize) < -2 {
             // to determine if the number rounds to zero, we need to make sure |self| < 0.5
             // which is stricter than `self.repr.smaller_than_one()`
-            return Self::ZERO;
+            // (same context as the general path, so that the estimate is not observable)
+            let shift = (-self.repr.exponent) as usize;
+            let context = Context::new(self.context.precision.saturating_sub(shift));
+            return FBig::new(Repr::zero(), context);
         }
 
         let (hi, lo, precision) = self.split_at_point_internal();
